@@ -732,7 +732,7 @@ fn op_timedec<T: Ty>(b: &[u8]) -> Out {
     let mut best_v = f64::MAX;
     let mut best_t = f64::MAX;
     let mut accepted = false;
-    for _ in 0..2 {
+    for _ in 0..3 {
         let t0 = Instant::now();
         let v: Result<Value, _> = coset::cbor::de::from_reader(b);
         let tv = t0.elapsed().as_secs_f64();
